@@ -216,7 +216,9 @@ def config(draw, maxN=50):
         sr=draw(st.sampled_from([8, 10, 100, 16000])), sw=draw(st.sampled_from([1, 2, 4])),
         ch=draw(st.integers(1, 2)), N=N, B=B, H=draw(st.one_of(st.none(), st.integers(1, B))),
         fb=draw(st.sampled_from([0, 0, 0.5, 0.75])), fh=0,
-        mr=draw(st.one_of(st.none(), st.tuples(st.integers(0, N + 5), st.sampled_from([0, 0, 0.5, 0.25])).map(list))),
+        mr=draw(st.one_of(st.none(), st.tuples(st.integers(0, N + 5), st.sampled_from([0, 0, 0.5, 0.25])).map(list),
+                          st.tuples(st.integers(0, N + 5), st.sampled_from([0, 0, 0.5, 0.25])).map(list),
+                          st.tuples(st.integers(-5, -1), st.sampled_from([0, 0.25])).map(list))),
         kind=draw(st.sampled_from(["bytes", "bytes", "raw_lazy", "wav_lazy", "buffer", "stdin", "stdin_pipe"])),
         how=draw(st.sampled_from(["record", "Recorder", "record", "Recorder", "plain"])),
         salt=draw(st.integers(0, 10**6)),
@@ -267,6 +269,12 @@ def explicit_cases():
         {"cfg": dict(cfg, how="Recorder"), "ops": ["rewind", "read", "read", "data"]},
         {"cfg": dict(cfg, N=2250000, sw=4, ch=2, sr=44100, B=100000, H=None, mr=None), "ops": [["read_n", 23], "rewind", "data", ["read_n", 24]]},
         {"cfg": dict(cfg, N=2300, B=1, H=None, mr=None), "ops": [["read_n", 2100], "rewind", "data", ["read_n", 2101], "rewind", "data"]},
+        # 36 MiB and 70 MiB recorded before the first rewind (blocks of 1 MiB / 3.5 MiB)
+        {"cfg": dict(cfg, N=9437184, sw=4, ch=1, sr=48000, B=262144, H=None, mr=None), "ops": [["read_n", 37], "rewind", "data", ["read_n", 37], "rewind", "data"]},
+        {"cfg": dict(cfg, N=18350080, sw=2, ch=2, sr=48000, B=917504, H=None, mr=None, how="Recorder", kind="raw_lazy"), "ops": [["read_n", 21], "rewind", "data", ["read_n", 3]]},
+        # a negative max_read: nothing may be read
+        {"cfg": dict(cfg, mr=[-3, 0]), "ops": ["read", "read", "rewind", "data", "read"]},
+        {"cfg": dict(cfg, mr=[-1, 0.5], H=None, how="Recorder", kind="buffer"), "ops": ["read", "rewind", "data", "read", "rewind", "data"]},
         {"cfg": dict(cfg, N=2300, B=1, H=None, mr=[2200, 0], kind="raw_lazy", how="Recorder"), "ops": [["read_n", 2048], "rewind", "data", "read"]},
         {"cfg": dict(cfg, kind="buffer", prepos=5), "ops": ["read", "read", "rewind", "data", "read", "read", "read"]},
         {"cfg": dict(cfg, how="plain"), "ops": ["read", "data", "rewind", "read"]},
